@@ -1764,14 +1764,40 @@ class Module(ABC):
         if name in channel_names:
             channel_cols = list(channel.channel_params.keys())
             channel_cols += list(channel.channel_states.keys())
-            self.base.nodes.loc[self._nodes_in_view, channel_cols] = float("nan")
-            self.base.nodes.loc[self._nodes_in_view, name] = False
+
+            # Parameters and states can be shared between channels (e.g. `vt`, `eK`).
+            # Only reset those which no other channel in the same compartment uses.
+            other_channels = [c for c in self.base.channels if c._name != name]
+            nodes = self.base.nodes
+            has_channel = nodes.loc[self._nodes_in_view, name].to_numpy().astype(bool)
+            rows = self._nodes_in_view[has_channel]
+            for col in channel_cols:
+                users = [
+                    c._name
+                    for c in other_channels
+                    if col in c.channel_params or col in c.channel_states
+                ]
+                still_used = nodes.loc[rows, users].to_numpy().astype(bool).any(axis=1)
+                nodes.loc[rows[~still_used], col] = float("nan")
+            nodes.loc[self._nodes_in_view, name] = False
 
             # only delete cols if no other comps in the module have the same channel
             if np.all(~self.base.nodes[name]):
                 self.base.channels.pop(all_channel_names.index(name))
-                self.base.membrane_current_names.remove(channel.current_name)
-                self.base.nodes.drop(columns=channel_cols + [name], inplace=True)
+                # Keep the current name and the columns that a remaining channel uses.
+                if channel.current_name not in [
+                    c.current_name for c in self.base.channels
+                ]:
+                    self.base.membrane_current_names.remove(channel.current_name)
+                unused_cols = [
+                    col
+                    for col in channel_cols
+                    if not any(
+                        col in c.channel_params or col in c.channel_states
+                        for c in self.base.channels
+                    )
+                ]
+                self.base.nodes.drop(columns=unused_cols + [name], inplace=True)
         else:
             raise ValueError(f"Channel {name} not found in the module.")
 
